@@ -68,6 +68,8 @@ def _get_post(a, r, p):
     # a str attribute reads back as itself, except the two boolean literals which read back as bool
     if isinstance(r, bool):
         return S.eq(v, "true") if r else S.eq(v, "false")
+    if isinstance(r, z3.ExprRef) and z3.is_bool(r):
+        return z3.If(r, S.eq(v, "true"), S.eq(v, "false"))
     if r is None:
         return False
     return S.And(S.eq(r, v), S.Not(S.eq(v, "true")), S.Not(S.eq(v, "false")))
@@ -108,6 +110,7 @@ def _canon(n):
     return str(n)
 
 
+import specs.datatypes  # noqa: F401,E402
 import specs.vault  # noqa: F401,E402  (the vault-level hooks of the same functions)
 from pyvc.spec import REGISTRY  # noqa: E402
 
